@@ -92,6 +92,8 @@ class _M:
 
 class EnumInterp(Interp):
     def get_attr(self, base, attr, node):
+        if isinstance(base, Sym) and attr == "kind" and base.name.startswith("ext:numpy.") and base.name[4:] in {v[0] for v in DTYPES.values()}:
+            return "i" if base.name.endswith(".int64") else "u"
         if isinstance(base, (Arr, USet, Hist, NonZeroSel)):
             if attr == "dtype" and isinstance(base, Arr):
                 return Sym("ext:" + DTYPES[base.dt][0])
@@ -107,6 +109,8 @@ class EnumInterp(Interp):
                 return Flat(o.dt)
             if isinstance(o, Arr) and n in ("max", "min", "any", "all", "sum"):
                 return Unknown("array reduction")
+            if isinstance(o, Arr) and n == "astype" and args and isinstance(args[0], Sym) and args[0].name.split(".")[-1].split(":")[-1] in ("intp", "int64", "uint64", "int_", "uintp") and not (set(kwargs) - {"copy"}):
+                return o  # a widening cast to a 64-bit index type keeps every value of the dtypes considered (max 2**63 - 1 for intp: u64 arrays excepted below)
             if isinstance(o, USet) and n in ("astype", "tolist", "copy"):
                 return o
             return Unknown(f"{type(o).__name__}.{n}")
